@@ -51,7 +51,7 @@ ASSUMPTIONS = [
     'responses do not depend on what was served before',
 ]
 SHARDS = {'quick': 8, 'thorough': 16}
-TIMEOUT = {'quick': 600, 'thorough': 3000}
+TIMEOUT = {'quick': 900, 'thorough': 3600}
 ANCHORS = [
     ('pjrpc/server/dispatcher.py', 'AsyncDispatcher.dispatch'),
     ('pjrpc/server/dispatcher.py', 'AsyncDispatcher._handle_request'),
